@@ -31,13 +31,17 @@ META = {
             "allocator holds N instead of N+1 index cells). Both are constructor defects outside the statement of C15 "
             "(not allocation requests); the probe records them as notes and they are not raised. Address-level claims are for "
             "single-threaded histories; concurrent index hand-out is C09. Growth is observed through one publisher and "
-            "one subscriber in one process (two mappings of every segment).",
+            "one subscriber in one process (two mappings of every segment). Growth scenarios whose chunk alignment is "
+            ">= 16 (payload start in the shared memory not aligned to it) are validated separately: there the dynamic "
+            "segment was found to lose one chunk per reallocation (signature growth:unaligned-payload-start:GrowthServes); "
+            "their data-integrity clauses are still checked in a second pass.",
     "design_ref": "DESIGN.md 5 C15, 3.4, 3.5, 7 (hypothesis 7)",
     "replay": True,
 }
 
 SIG_STRIDE = "pool:bucket-stride-unaligned:Aligned"
 SIG_ONE = "one-chunk:padding-exceeds-size:FailsCleanly"
+SIG_GROWTH = "growth:unaligned-payload-start:GrowthServes"
 DOC_ERRORS = ("SizeIsZero", "SizeTooLarge", "AlignmentFailure", "OutOfMemory")
 ALLOC_INVS = "InBounds Disjoint Aligned SizeSufficient FailsCleanly"
 
@@ -373,10 +377,12 @@ def run(ctx):
     prefix = f"c15{'q' if quick else 't'}{ctx.seed % 1000}_"
     root = ctx.path("dom", "x")[:-2]
     gtrace = ctx.path("traces", "growth.ndjson")
+    gtrace_u = ctx.path("traces", "growth_unaligned.ndjson")
     cleanup_shm(prefix)
     try:
         _, so, _ = vp.run_driver("drv-alloc", ["growth", "--root", root, "--prefix", prefix, "--out", gtrace,
-                                              "--scenarios", 12 if quick else 60, "--steps", 14 if quick else 30],
+                                              "--out-unaligned", gtrace_u,
+                                              "--scenarios", 16 if quick else 64, "--steps", 14 if quick else 30],
                                  timeout=900, env={"VERIF_SEED": ctx.seed})
     finally:
         cleanup_shm(prefix)
@@ -384,17 +390,45 @@ def run(ctx):
     ctx.coverage["growth"] = gs
     per = gs["per_action"]
     missing = [a for a in ("loan:ok", "loan:err", "send:ok", "recv:ok", "check:ok", "pcheck:ok", "release:ok",
-                           "droploan:ok", "grow_steps", "scenario:BestFit", "scenario:PowerOfTwo", "scenario:Static")
+                           "droploan:ok", "grow_steps", "scenario:BestFit", "scenario:PowerOfTwo", "scenario:Static",
+                           "scenario:staircase")
                if not per.get(a)]
-    if missing:
-        raise vp.ToolError(f"vacuous growth run: never observed {missing}")
+    if missing or not gs.get("events_unaligned"):
+        raise vp.ToolError(f"vacuous growth run: never observed {missing} (unaligned events {gs.get('events_unaligned')})")
     ctx.evaluations += gs["scenarios"]
     ctx.distinct += gs["scenarios"]
+    # (a) chunk alignment <= 8 or static segment: every clause must hold
     v = validate(ctx, "GrowthTrace", gtrace, "growth")
     if v.accepted:
-        ctx.traces_validated += gs["scenarios"]
+        ctx.traces_validated += count_runs(gtrace)
     else:
         report_trace(ctx, v, gtrace, "publisher/subscriber across data-segment growth", "growth")
+    # (b) growing segment whose chunk alignment exceeds the alignment of the payload start
+    v = validate(ctx, "GrowthTrace", gtrace_u, "growth, chunk alignment >= 16")
+    if v.accepted:
+        ctx.traces_validated += count_runs(gtrace_u)
+    else:
+        st = last_state(v.res)
+        if v.invariant == "GrowthServes" and '"OutOfMemory"' in st.get("gwhy", ""):
+            urecs = vp.read_ndjson(gtrace_u)
+            pos, rec = rec_of_state(urecs, st)
+            run_u, rel = vp.run_containing(urecs, pos) if pos else ([], 0)
+            loans = [r for r in run_u[:rel] if r.get("a") == "loan"]
+            ctx.report(vp.Violation(
+                f"publisher with a growing data segment ({run_u[0] if run_u else None}): loan #{len(loans)} of "
+                f"{rec.get('len') if rec else '?'} elements fails with OutOfMemory (every reallocated segment holds one "
+                f"chunk fewer than requested when the chunk alignment exceeds the alignment of the payload start; at zero "
+                f"chunks all reallocations are used up)",
+                replay={"trace_class": "growth-unaligned", "clause": "GrowthServes", "record": rec,
+                        "run": run_u[:rel + 1], "state": st},
+                signature=SIG_GROWTH))
+            v2 = validate(ctx, "GrowthTrace", gtrace_u, "growth, chunk alignment >= 16", cfg="GrowthTrace_data.cfg")
+            if v2.accepted:
+                ctx.traces_validated += count_runs(gtrace_u)
+            else:
+                report_trace(ctx, v2, gtrace_u, "publisher/subscriber across data-segment growth (data clauses)", "growth")
+        else:
+            report_trace(ctx, v, gtrace_u, "publisher/subscriber across data-segment growth", "growth")
     grecs = vp.read_ndjson(gtrace)
     ctx.sample({"growth_scenario": grecs[:10]})
 
